@@ -429,17 +429,13 @@ func (a *AggregatePlan) batch(ctx *ExecuteCtx) ([][]Column, error) {
 			ctx.Clear()
 		}
 		row := make([]Column, len(a.aggrFields))
+		if err = a.completeAggrFuncs(aggrRow); err != nil {
+			return nil, err
+		}
 		for i, col := range aggrRow {
 			if col.IsKey {
 				row[i] = col.Value
 			} else {
-				for i, f := range col.Funcs {
-					val, err := f.Complete()
-					if err != nil {
-						return nil, err
-					}
-					col.FuncExprs[i].Result = val
-				}
 				row[i], err = col.Expr.Execute(NewKVP(nil, nil), ctx)
 				if err != nil {
 					return nil, err
@@ -502,17 +498,13 @@ func (a *AggregatePlan) next(ctx *ExecuteCtx) ([]Column, error) {
 		ctx.Clear()
 	}
 	row := make([]Column, len(a.aggrFields))
+	if err = a.completeAggrFuncs(aggrRow); err != nil {
+		return nil, err
+	}
 	for i, col := range aggrRow {
 		if col.IsKey {
 			row[i] = col.Value
 		} else {
-			for i, f := range col.Funcs {
-				val, err := f.Complete()
-				if err != nil {
-					return nil, err
-				}
-				col.FuncExprs[i].Result = val
-			}
 			row[i], err = col.Expr.Execute(NewKVP(nil, nil), ctx)
 			if err != nil {
 				return nil, err
@@ -520,6 +512,21 @@ func (a *AggregatePlan) next(ctx *ExecuteCtx) ([]Column, error) {
 		}
 	}
 	return row, nil
+}
+
+// completeAggrFuncs hands every aggregate call of the group its result before
+// any field is evaluated: a field can use the name of a field listed after it
+func (a *AggregatePlan) completeAggrFuncs(aggrRow []*AggrPlanField) error {
+	for _, col := range aggrRow {
+		for i, f := range col.Funcs {
+			val, err := f.Complete()
+			if err != nil {
+				return err
+			}
+			col.FuncExprs[i].Result = val
+		}
+	}
+	return nil
 }
 
 func (a *AggregatePlan) getAggrKey(key []byte, val []byte, ctx *ExecuteCtx) (string, error) {
